@@ -152,6 +152,10 @@ func (h *Header) Parse(b []byte) error {
 			h.Options = h.Options[:optlen]
 		}
 		copy(h.Options, b[HeaderLen:hdrlen])
+	} else {
+		// No options in this header: do not keep the ones of a
+		// previously parsed header in a reused receiver.
+		h.Options = h.Options[:0]
 	}
 	return nil
 }
